@@ -157,6 +157,10 @@ def _warn_for_string_literal(csource):
                           "confuse pre-parsing.")
             break
 
+# the value of the character constant '\X', for the simple escapes X
+_simple_escapes = {'n': 10, 't': 9, 'r': 13, 'a': 7, 'b': 8, 'f': 12, 'v': 11,
+                   '0': 0, '\\': 92, "'": 39, '"': 34, '?': 63}
+
 def _warn_for_non_extern_non_static_global_variable(decl):
     if not decl.storage:
         import warnings
@@ -894,9 +898,11 @@ class Parser:
                         elif s.lower()[0:2] == '0b':
                             return int(s, 2)
                 raise CDefError("invalid constant %r" % (s,))
-            elif s[0] == "'" and s[-1] == "'" and (
-                    len(s) == 3 or (len(s) == 4 and s[1] == "\\")):
+            elif s[0] == "'" and s[-1] == "'" and len(s) == 3:
                 return ord(s[-2])
+            elif (s[0] == "'" and s[-1] == "'" and len(s) == 4
+                      and s[1] == "\\" and s[2] in _simple_escapes):
+                return _simple_escapes[s[2]]
             else:
                 raise CDefError("invalid constant %r" % (s,))
         #
